@@ -57,6 +57,7 @@ Record cdesc := {
   c_fields : list string;             (* _fields *)
   c_total : bool;                     (* __total__ *)
   c_parts : list (bool * list string);(* TypedDict: totality and declared keys of every base (in order) and of the class body *)
+  c_required : list string;           (* __required_keys__ *)
   c_attrs : list string;              (* hint names x with hasattr(cls, x) *)
   c_slots : option (list string);     (* getattr(cls, "__slots__") *)
   c_members : list (string * mkind);  (* inspect.getmembers(cls): sorted by name *)
@@ -267,7 +268,14 @@ Definition self_ity (d : cdesc) : ity := IClass (c_cls d).
 Definition hints_nex (d : cdesc) : list (string * hint) :=
   filter (fun nh => negb (is_kwonly (snd nh))) (match typing_hints d with Some l => l | None => [] end).
 
+(* typed_dict_signature (as repaired, proposed_fixes/C17-typeddict-signature-defaults): a key has no default exactly
+   when it is in __required_keys__ (Required / NotRequired hidden in string annotations are outside this language) *)
 Definition typed_dict_signature (d : cdesc) : list param :=
+  map (fun nh => {| p_name := fst nh; p_kind := KKwOnly; p_ann := AObj (snd nh);
+                    p_default := negb (memS (fst nh) (c_required d)) |}) (hints_nex d).
+(* PINNED: before the repair the default of EVERY key came from the __total__ of the class itself, and
+   getattr(cls, key, default) found dict methods; kept only for the witnesses in dyn/C17/C17Hints.v *)
+Definition typed_dict_signature_pinned (d : cdesc) : list param :=
   map (fun nh => {| p_name := fst nh; p_kind := KKwOnly; p_ann := AObj (snd nh);
                     p_default := memS (fst nh) (c_attrs d) || negb (c_total d) |}) (hints_nex d).
 
@@ -295,7 +303,10 @@ Definition signature (d : cdesc) : option (list param) :=
        | Raise _ => None
        end.
 
-(* _hints_from_signature: a missing annotation is Any, a str becomes refs.forwardref(.., module=obj.__module__) *)
+(* _hints_from_signature: a missing annotation is Any, a str becomes refs.forwardref(.., module=M) where M is the module
+   the annotation was written in (as repaired, proposed_fixes/C17-fallback-annotation-module): for a dataclass the class
+   of the MRO whose own __annotations__ hold that text under that name, else the class whose __new__ / __init__ gives
+   the signature, else obj.__module__ *)
 Definition sig_hint (m : string) (p : param) : hint :=
   match p_ann p with
   | AEmpty => HTy (IClass c_Any)
@@ -304,7 +315,28 @@ Definition sig_hint (m : string) (p : param) : hint :=
   end.
 Definition hints_from_params (m : string) (ps : list param) : list (string * hint) :=
   merge (map (fun p => (p_name p, sig_hint m p)) ps).
+Fixpoint decl_module (mro : list klass) (n s : string) : option string :=
+  match mro with
+  | [] => None
+  | k :: r => match find_str n (k_ann k) with
+              | Some (AStr s') => if String.eqb s s' then Some (k_module k) else decl_module r n s
+              | _ => decl_module r n s
+              end
+  end.
+Definition ann_module (d : cdesc) (n s : string) : string :=
+  match (if existsb k_dc (c_mro d) then decl_module (c_mro d) n s else None) with
+  | Some m => m
+  | None => match sig_of_mro (c_mro d) with Some (m, _) => m | None => self_module d end
+  end.
+Definition param_module (d : cdesc) (p : param) : string :=
+  match p_ann p with AStr s => ann_module d (p_name p) s | _ => self_module d end.
 Definition hints_from_signature (d : cdesc) : list (string * hint) :=
+  match signature d with
+  | Some ps => merge (map (fun p => (p_name p, sig_hint (param_module d p) p)) ps)
+  | None => []
+  end.
+(* PINNED: before the repair every text was evaluated in obj.__module__; kept only for the witness *)
+Definition hints_from_signature_pinned (d : cdesc) : list (string * hint) :=
   match signature d with Some ps => hints_from_params (self_module d) ps | None => [] end.
 
 (* inspection.get_type_hints / cached_type_hints *)
@@ -499,7 +531,7 @@ Definition pl_guard (d : cdesc) : bool :=
       if unannotated (c_mro d) then
         nodup_s (names_of fs)
         && match inspect_signature d with
-           | Some (m, ps) => String.eqb m (self_module d) && forallb (strip_ok m) ps
+           | Some (m, ps) => forallb (strip_ok m) ps
            | None => false
            end
       else
@@ -533,12 +565,10 @@ Definition field_guard (d : cdesc) : bool :=
      | None => false
      end.
 
-(* typed_dict_signature: a key has a default exactly when it is not required -- true when every part has the
-   totality of the class itself and no key is the name of a dict attribute *)
+(* typed_dict_signature against the metaclass model: a key has a default exactly when the PARTS do not require it --
+   whenever __required_keys__ of the class is what the parts say (decided per class; any mix of totalities) *)
 Definition td_sig_guard (d : cdesc) : bool :=
-  forallb (fun p => Bool.eqb (fst p) (c_total d)) (c_parts d)
-  && forallb (fun nh => negb (memS (fst nh) (c_attrs d))) (hints_nex d)
-  && forallb (fun nh => memS (fst nh) (td_keys (c_parts d))) (hints_nex d).
+  forallb (fun nh => Bool.eqb (memS (fst nh) (c_required d)) (memS (fst nh) (td_required (c_parts d)))) (hints_nex d).
 
 End Hints.
 
